@@ -14,6 +14,7 @@ import (
 	"fmt"
 	"os"
 	"path/filepath"
+	"runtime"
 	"sort"
 	"strconv"
 	"strings"
@@ -44,6 +45,8 @@ type Prop struct {
 	// CaseTimeout bounds one Run (default 120 s). A case that does not return is recorded with
 	// output "hang" and as an oracle failure "<id>:hang"; no further cases are generated after it
 	// (the stuck goroutine may hold locks), so the check still ends with the hanging case as replay.
+	// The limit is for cases that make no progress; one that is computing when it expires gets up to
+	// three more windows (watchdog.go).
 	CaseTimeout time.Duration
 }
 
@@ -65,6 +68,7 @@ type Gen struct {
 	aborted  bool
 	dist     map[string]int
 	samples  []string
+	outdir   string
 }
 
 func (g *Gen) Thorough() bool { return g.Tier == "thorough" }
@@ -173,31 +177,6 @@ func (g *Gen) Case(kind int, s [][]byte, z []int64) string {
 	return out
 }
 
-func (g *Gen) runWithWatchdog(c *Case) (string, []Fail) {
-	type res struct {
-		out   string
-		fails []Fail
-	}
-	ch := make(chan res, 1)
-	go func() {
-		o, f := g.prop.Run(c)
-		ch <- res{o, f}
-	}()
-	to := g.prop.CaseTimeout
-	if to == 0 {
-		to = 120 * time.Second
-	}
-	select {
-	case r := <-ch:
-		return r.out, r.fails
-	case <-time.After(to):
-		g.aborted = true
-		g.dist["_hang"]++
-		return "hang", []Fail{{Sig: strings.ToLower(g.prop.ID) + ":hang",
-			Desc: fmt.Sprintf("the implementation did not finish this case within %s (deadlock or wedge); generation stopped", to)}}
-	}
-}
-
 func main() {
 	if len(os.Args) < 3 {
 		fmt.Fprintln(os.Stderr, "usage: harness <PROP> gen|replay ...")
@@ -221,7 +200,7 @@ func main() {
 		ff, _ := os.Create(filepath.Join(outdir, "fails.txt"))
 		g := &Gen{Tier: *tier, Seed: *seed, R: NewRng(*seed), prop: p,
 			out: bufio.NewWriterSize(cf, 1<<20), failsOut: bufio.NewWriter(ff),
-			seen: map[string]struct{}{}, dist: map[string]int{}}
+			seen: map[string]struct{}{}, dist: map[string]int{}, outdir: outdir}
 		ncorpus := 0
 		if *corpus != "" {
 			files, _ := filepath.Glob(filepath.Join(*corpus, "*.txt"))
@@ -268,8 +247,17 @@ func main() {
 			if err != nil {
 				continue
 			}
-			out, fails := p.Run(c)
+			// the same watchdog as in gen: a replayed hang ends with the stacks instead of never
+			g := &Gen{prop: p, dist: map[string]int{}}
+			out, fails := g.runWithWatchdog(c)
 			fmt.Printf("CASE %s\nIMPL %s\n", c.Line(), out)
+			if g.aborted {
+				buf := make([]byte, 64<<20)
+				buf = buf[:runtime.Stack(buf, true)]
+				fmt.Printf("ORACLE-FAIL %s: %s\n", fails[0].Sig, fails[0].Desc)
+				os.Stderr.Write(buf)
+				os.Exit(1)
+			}
 			for _, f := range fails {
 				bad++
 				fmt.Printf("ORACLE-FAIL %s: %s\n", f.Sig, f.Desc)
